@@ -15,8 +15,7 @@ def e1(ctx):
     for cfg, inv in DEVS:
         # with a forbidden step enabled the invariant must break: the protocol guards are what makes it hold
         ctx.model_check("MCDrfFs", "MCDrfFs_%s.cfg" % cfg, expect_violated=(inv,), coverage=False, tag=cfg)
-    for w in WITNESSES:
-        ctx.model_check("MCDrfFs", "MCDrfFs_W_%s.cfg" % w, expect_violated=("W_" + w,), coverage=False, tag="W_" + w)
+    ctx.witnesses("MCDrfFs", "MCDrfFs_W_%s.cfg", WITNESSES)
 
 
 def env(ctx):
